@@ -4,7 +4,7 @@ From Boltons Require Import Lib.Prelude Lib.C07_Str Spec.C07_Spec Gen.C07_Gen Mo
      Proofs.C07_StrLemmas Proofs.C07_Rds Proofs.C07_Resolve Proofs.C07_Parse Proofs.C07_Navigate
      Proofs.C07_Text Proofs.C07_RfcExamples Gen.C07_Src Proofs.C07_SrcEq Check.C07_Check
      Proofs.C07_Refine Proofs.C07_RoundTrip Proofs.C07_Unrooted Proofs.C07_Case
-     Proofs.C07_RefineUnrooted Proofs.C07_CaseAuth.
+     Proofs.C07_RefineUnrooted Proofs.C07_CaseAuth Proofs.C07_CaseRefine.
 Open Scope N_scope.
 Open Scope list_scope.
 
@@ -196,6 +196,14 @@ Theorem C07_model_satisfies_spec : forall b d1 d2 f1 f2,
   c07_holds (mkCase (to_text b) false (to_text d1) f1 (to_text d2) f2 (record_obs b d1 d2)) = true.
 Proof. exact model_observation_satisfies_spec. Qed.
 Print Assumptions C07_model_satisfies_spec.
+
+(* the same for a base with mixed-case scheme / host (whatever base text and flag the case
+   carries: c07_holds only looks at the observation and the reference texts) *)
+Theorem C07_model_satisfies_spec_mixed_case : forall b d1 d2 unrooted f1 f2 bt,
+  wf_base_mc b -> wf_ref d1 \/ wf_base d1 -> wf_ref d2 \/ wf_base d2 ->
+  c07_holds (mkCase bt unrooted (to_text d1) f1 (to_text d2) f2 (record_obs b d1 d2)) = true.
+Proof. exact mixed_case_observation_satisfies_spec. Qed.
+Print Assumptions C07_model_satisfies_spec_mixed_case.
 
 (* URL(text) gives back the object that was printed (model of URL.__init__ /
    parse_url / parse_qsl on the plain-text domain), so the objects quantified
